@@ -222,6 +222,10 @@ def run_export(vec):
         vals = base.copy()
         if sparse:
             vals[(vals * 4).astype(int) % 3 == 0] = 0.0     # a deterministic pattern of zeros
+            nz = np.argwhere(vals != 0)
+            if len(nz) >= 2:                                  # non-zero entries of very small magnitude stay entries
+                vals[tuple(nz[0])] = 1e-12
+                vals[tuple(nz[-1])] = -3e-300
         # every second style stores the values in a non-C-contiguous buffer: export must go by label, not memory order
         store = np.asfortranarray(vals.copy()) if (vec["styleid"] % 2 == 0 and vals.ndim >= 2) else vals.copy()
         arr = FlodymArray(dims=dims, values=store, name="x")
@@ -279,3 +283,81 @@ def run_export(vec):
 
 def run_vector(vec):
     return run_import(vec) if vec["op"] == "import" else run_export(vec)
+
+
+def run_large_roundtrip(case):
+    """The round-trip clause of C11 on LARGE instances (dimensions with hundreds of items), where no bounded model reaches:
+    from_df(to_df(x)) == x in every to_df layout, after reversing the rows, and to_df lists every entry under its labels."""
+    n_time, n_reg, layout = case
+    t = Dimension(name="Time", letter="t", items=list(range(1800, 1800 + n_time)), dtype=int)
+    r = Dimension(name="Region", letter="r", items=[f"reg{i:03d}" for i in range(n_reg)][::-1], dtype=str)
+    e = Dimension(name="Element", letter="e", items=["Fe", "Cu"], dtype=str)
+    dims = DimensionSet(dim_list=[r, t, e] if layout % 2 else [t, e, r])
+    rng = np.random.default_rng(n_time * 1000 + n_reg)
+    vals = rng.integers(1, 10 ** 6, size=tuple(d.len for d in dims)).astype(float) + 0.5
+    x = FlodymArray(dims=dims, values=vals.copy())
+    problems = []
+    tag = f"[large instance: {n_time} years x {n_reg} regions x 2 elements, dims {dims.letters}] {{C11,C04}} "
+    for index, dcol in ((True, None), (False, None), (True, "Time"), (False, "r")):
+        if dcol is not None and max(n_time, n_reg) > 5000 and (dcol == "Time") == (n_time > n_reg):
+            continue        # (tens of thousands of columns: not a table anybody writes, and slow)
+        try:
+            df = x.to_df(index=index, dim_to_columns=dcol)
+            back = FlodymArray.from_df(dims=dims, df=df.iloc[::-1])
+            if not np.array_equal(back.values, vals):
+                bad = int(np.sum(back.values != vals))
+                problems.append(tag + f"from_df(to_df(x, index={index}, dim_to_columns={dcol!r})) differs from x in {bad} entries")
+            if dcol is None:
+                flat = df.reset_index() if index else df
+                i = len(flat) // 3
+                row = flat.iloc[i]
+                idx = tuple(d.items.index(row[d.name]) for d in dims)
+                if float(row["value"]) != vals[idx]:
+                    problems.append(tag + f"to_df row {i} lists {row['value']} under labels whose entry is {vals[idx]}")
+        except Exception as ex:
+            problems.append(tag + f"round trip raised {type(ex).__name__}: {str(ex)[:150]}")
+    return problems[:3]
+
+
+def run_large_faulty(case):
+    """The fault clauses of C12 on LARGE instances: rows dropped (allow_missing_values: zero there, every present entry under its
+    labels; default: refused, array untouched) and rows with an unknown item added (allow_extra_values: ignored)."""
+    n_time, n_reg, layout = case
+    t = Dimension(name="Time", letter="t", items=list(range(1800, 1800 + n_time)), dtype=int)
+    r = Dimension(name="Region", letter="r", items=[f"reg{i:03d}" for i in range(n_reg)][::-1], dtype=str)
+    dims = DimensionSet(dim_list=[r, t] if layout % 2 else [t, r])
+    rng = np.random.default_rng(n_time * 31 + n_reg)
+    vals = rng.integers(1, 10 ** 6, size=tuple(d.len for d in dims)).astype(float) + 0.5
+    df = FlodymArray(dims=dims, values=vals.copy()).to_df(index=False)
+    drop = sorted(set(int(i) for i in rng.integers(0, len(df), size=7)) | {0, len(df) - 1})
+    kept = df.drop(index=drop).iloc[::-1].reset_index(drop=True)
+    expected = vals.copy()
+    for i in drop:
+        row = df.iloc[i]
+        expected[tuple(d.items.index(row[d.name]) for d in dims)] = 0.0
+    tag = f"[large instance: {n_time} years x {n_reg} regions, dims {dims.letters}, {len(drop)} rows dropped] {{C12}} "
+    problems = []
+    try:
+        x = FlodymArray(dims=dims, values=np.full(vals.shape, 7.0))
+        try:
+            x.set_values_from_df(kept.copy())
+            problems.append(tag + "default settings accepted data with missing label combinations")
+        except Exception:
+            if not np.array_equal(x.values, np.full(vals.shape, 7.0)):
+                problems.append(tag + "a refused import left a partially filled array behind")
+        x = FlodymArray(dims=dims, values=np.full(vals.shape, 7.0))
+        x.set_values_from_df(kept.copy(), allow_missing_values=True)
+        if not np.array_equal(x.values, expected):
+            problems.append(tag + f"allow_missing_values: {int(np.sum(x.values != expected))} of {expected.size} entries are not (present entry under "
+                                  f"its labels / zero where missing)")
+        extra = df.iloc[[1, len(df) // 2]].copy()
+        extra["Region"] = "no_such_region"
+        more = pd.concat([df, extra]).iloc[::-1].reset_index(drop=True)
+        x = FlodymArray(dims=dims, values=np.full(vals.shape, 7.0))
+        x.set_values_from_df(more, allow_extra_values=True)
+        if not np.array_equal(x.values, vals):
+            problems.append(tag.replace("rows dropped", "rows dropped; here: 2 rows with an unknown item added") +
+                            f"allow_extra_values: {int(np.sum(x.values != vals))} entries differ from the data")
+    except Exception as ex:
+        problems.append(tag + f"raised {type(ex).__name__}: {str(ex)[:150]}")
+    return problems[:3]
